@@ -118,11 +118,13 @@ var framePools = func() [FrameContinuation + 1]*sync.Pool {
 
 func AcquireFrame(ftype FrameType) Frame {
 	fr := framePools[ftype].Get().(Frame)
+	verifPool(verifPoolFrame, true, fr)
 	fr.Reset()
 
 	return fr
 }
 
 func ReleaseFrame(fr Frame) {
+	verifPool(verifPoolFrame, false, fr)
 	framePools[fr.Type()].Put(fr)
 }
